@@ -72,13 +72,18 @@ Other(d) == CHOOSE e \in DBs : e # d
 
 VARIABLES started,
           pex, ppos, pimg, plog,          \* primary: in the store map, position, image, transaction files
+          prst,                           \* the primary has been restarted (nothing durable changes; kept in the
+                                          \* view so that Restart(n1) is not merged with the restart of a replica)
           has, pos, img, foreign,         \* replicas: in the store map, position, image, seeded orphan position
           blocked, conn,
+          gap,                            \* per replica: the primary committed or dropped something while the replica was
+                                          \* blocked. Changes no action; kept in the view so that a script with a
+                                          \* Block..Unblock window is not merged with the shorter one that restarts the replica
           bel, dirty, pend, cur, inflight, \* per stream (server side + the wire)
           txCount, faults, orphans, committed, hist
 
-vars == <<started, pex, ppos, pimg, plog, has, pos, img, foreign, blocked, conn, bel, dirty, pend, cur, inflight, txCount, faults, orphans, committed, hist>>
-view == <<started, pex, ppos, pimg, plog, has, pos, img, foreign, blocked, conn, bel, dirty, pend, cur, inflight, txCount, faults, orphans, committed>>
+vars == <<started, pex, ppos, pimg, plog, prst, has, pos, img, foreign, blocked, conn, gap, bel, dirty, pend, cur, inflight, txCount, faults, orphans, committed, hist>>
+view == <<started, pex, ppos, pimg, plog, prst, has, pos, img, foreign, blocked, conn, gap, bel, dirty, pend, cur, inflight, txCount, faults, orphans, committed>>
 
 Init ==
   /\ started = FALSE
@@ -86,12 +91,14 @@ Init ==
   /\ ppos = [d \in DBs |-> ZeroPos]
   /\ pimg = [d \in DBs |-> Z]
   /\ plog = [d \in DBs |-> <<>>]
+  /\ prst = FALSE
   /\ has = [r \in R |-> [d \in DBs |-> FALSE]]
   /\ pos = [r \in R |-> [d \in DBs |-> ZeroPos]]
   /\ img = [r \in R |-> [d \in DBs |-> Z]]
   /\ foreign = [r \in R |-> [d \in DBs |-> ZeroPos]]
   /\ blocked = [r \in R |-> FALSE]
   /\ conn = [r \in R |-> FALSE]
+  /\ gap = [r \in R |-> FALSE]
   /\ bel = [r \in R |-> [d \in DBs |-> ZeroPos]]
   /\ dirty = [r \in R |-> {}]
   /\ pend = [r \in R |-> {}]
@@ -104,8 +111,9 @@ Init ==
 H(a, args) == hist' = Append(hist, [a |-> a, g |-> args])
 NoH == UNCHANGED hist
 
-primaryVars == <<pex, ppos, pimg, plog>>
+primaryVars == <<pex, ppos, pimg, plog, prst>>
 replicaVars == <<has, pos, img, foreign>>
+Away == gap' = [r \in R |-> gap[r] \/ blocked[r]]
 streamVars == <<bel, dirty, pend, cur, inflight>>
 
 \* the stream of replica r ends: everything the server kept for it and everything on the wire is gone
@@ -127,12 +135,12 @@ Orphan(r, d, k) ==
      /\ img' = [img EXCEPT ![r][d] = p.c]
      /\ foreign' = [foreign EXCEPT ![r][d] = p]
   /\ orphans' = orphans + 1
-  /\ UNCHANGED <<started, primaryVars, blocked, conn, streamVars, txCount, faults, committed>>
+  /\ UNCHANGED <<started, primaryVars, blocked, gap, conn, streamVars, txCount, faults, committed>>
   /\ H("Orphan", [n |-> r, db |-> d, k |-> k, v |-> 100 + orphans])
 
 Start ==
   /\ ~started /\ started' = TRUE
-  /\ UNCHANGED <<primaryVars, replicaVars, blocked, conn, streamVars, txCount, faults, orphans, committed>>
+  /\ UNCHANGED <<primaryVars, replicaVars, blocked, gap, conn, streamVars, txCount, faults, orphans, committed>>
   /\ NoH
 
 Notify(d) == pend' = [r \in R |-> IF conn[r] THEN pend[r] \cup {d} ELSE pend[r]]   \* Store.markDirty: every subscriber
@@ -151,7 +159,8 @@ Commit(d) ==
         /\ committed' = [committed EXCEPT ![d] = @ \cup {[t |-> f.t, c |-> ni]}]
         /\ txCount' = txCount + 1
         /\ Notify(d)
-        /\ UNCHANGED <<started, replicaVars, blocked, conn, bel, dirty, cur, inflight, faults, orphans>>
+        /\ Away
+        /\ UNCHANGED <<started, prst, replicaVars, blocked, conn, bel, dirty, cur, inflight, faults, orphans>>
         /\ H("Commit", [db |-> d, v |-> v])
 
 \* deleting a database is a transaction with the empty checksum; the primary remembers the database
@@ -164,7 +173,8 @@ Drop(d) ==
         /\ committed' = [committed EXCEPT ![d] = @ \cup {[t |-> f.t, c |-> E]}]
   /\ txCount' = txCount + 1
   /\ Notify(d)
-  /\ UNCHANGED <<started, pex, replicaVars, blocked, conn, bel, dirty, cur, inflight, faults, orphans>>
+  /\ Away
+  /\ UNCHANGED <<started, pex, prst, replicaVars, blocked, conn, bel, dirty, cur, inflight, faults, orphans>>
   /\ H("Drop", [db |-> d])
 
 Block(r) ==
@@ -172,13 +182,13 @@ Block(r) ==
   /\ blocked' = [blocked EXCEPT ![r] = TRUE]
   /\ CutStream({r})
   /\ faults' = faults + 1
-  /\ UNCHANGED <<started, primaryVars, replicaVars, txCount, orphans, committed>>
+  /\ UNCHANGED <<started, primaryVars, replicaVars, gap, txCount, orphans, committed>>
   /\ H("Block", [n |-> r])
 
 Unblock(r) ==
   /\ blocked[r]
   /\ blocked' = [blocked EXCEPT ![r] = FALSE]
-  /\ UNCHANGED <<started, primaryVars, replicaVars, conn, streamVars, txCount, faults, orphans, committed>>
+  /\ UNCHANGED <<started, primaryVars, replicaVars, gap, conn, streamVars, txCount, faults, orphans, committed>>
   /\ H("Unblock", [n |-> r])
 
 \* process restart of a replica or of the primary: streams are lost, durable state is kept
@@ -186,7 +196,8 @@ Restart(n) ==
   /\ started /\ AllowRestart /\ faults < MaxFaults
   /\ CutStream(IF n = P THEN R ELSE {n})
   /\ faults' = faults + 1
-  /\ UNCHANGED <<started, primaryVars, replicaVars, blocked, txCount, orphans, committed>>
+  /\ prst' = (prst \/ n = P)
+  /\ UNCHANGED <<started, pex, ppos, pimg, plog, replicaVars, blocked, gap, txCount, orphans, committed>>
   /\ H("Restart", [n |-> n])
 
 \* retention sweep on the primary keeps only the newest file of a database
@@ -194,7 +205,7 @@ Sweep(d) ==
   /\ started /\ AllowSweep /\ faults < MaxFaults /\ Len(plog[d]) > 1
   /\ plog' = [plog EXCEPT ![d] = <<@[Len(@)]>>]
   /\ faults' = faults + 1
-  /\ UNCHANGED <<started, pex, ppos, pimg, replicaVars, blocked, conn, streamVars, txCount, orphans, committed>>
+  /\ UNCHANGED <<started, pex, ppos, pimg, prst, replicaVars, blocked, gap, conn, streamVars, txCount, orphans, committed>>
   /\ H("Sweep", [db |-> d])
 
 (* ---------------- what the nodes do on their own ---------------- *)
@@ -210,7 +221,7 @@ Connect(r) ==
   /\ pend' = [pend EXCEPT ![r] = {}]
   /\ cur' = [cur EXCEPT ![r] = None]
   /\ inflight' = [inflight EXCEPT ![r] = <<>>]
-  /\ UNCHANGED <<started, primaryVars, replicaVars, blocked, txCount, faults, orphans, committed>>
+  /\ UNCHANGED <<started, primaryVars, replicaVars, blocked, gap, txCount, faults, orphans, committed>>
   /\ NoH
 
 FileAt(d, t) == {i \in 1..Len(plog[d]) : plog[d][i].t = t}
@@ -242,7 +253,7 @@ Send(r, d) ==
                      ELSE LET f == plog[d][CHOOSE i \in F : TRUE] IN
                           /\ inflight' = [inflight EXCEPT ![r] = Append(@, [k |-> "ltx", d |-> d, snap |-> FALSE, t |-> f.t, pre |-> f.pre, post |-> f.post])]
                           /\ bel' = [bel EXCEPT ![r][d] = [t |-> f.t, c |-> f.post]]
-  /\ UNCHANGED <<started, primaryVars, replicaVars, blocked, conn, pend, txCount, faults, orphans, committed>>
+  /\ UNCHANGED <<started, primaryVars, replicaVars, blocked, gap, conn, pend, txCount, faults, orphans, committed>>
   /\ NoH
 
 \* the round is over; a change notification wakes the loop: dirty set := subscription.DirtySet()
@@ -250,7 +261,7 @@ Take(r) ==
   /\ conn[r] /\ dirty[r] = {} /\ pend[r] # {}
   /\ dirty' = [dirty EXCEPT ![r] = IF FilterEveryRound THEN Restrict(r, pend[r]) ELSE pend[r]]
   /\ pend' = [pend EXCEPT ![r] = {}]
-  /\ UNCHANGED <<started, primaryVars, replicaVars, blocked, conn, bel, cur, inflight, txCount, faults, orphans, committed>>
+  /\ UNCHANGED <<started, primaryVars, replicaVars, blocked, gap, conn, bel, cur, inflight, txCount, faults, orphans, committed>>
   /\ NoH
 
 \* the replica takes the next frame off the stream
@@ -275,7 +286,7 @@ Deliver(r) ==
           /\ has' = [has EXCEPT ![r][f.d] = TRUE]
           /\ UNCHANGED <<pos, img>>
           /\ CutStream({r})
-  /\ UNCHANGED <<started, primaryVars, foreign, blocked, txCount, faults, orphans, committed>>
+  /\ UNCHANGED <<started, primaryVars, foreign, blocked, gap, txCount, faults, orphans, committed>>
   /\ NoH
 
 Control == \/ \E r \in R, d \in DBs, k \in OrphanTx : Orphan(r, d, k)
@@ -327,6 +338,9 @@ Pred == [p |-> [d \in DBs |-> [ex |-> pex[d], t |-> ppos[d].t, empty |-> (ppos[d
          r |-> [r \in R |-> [d \in DBs |->
                    IF Passes(r, d) /\ pex[d] /\ ppos[d].t > 0 THEN [held |-> TRUE, t |-> ppos[d].t, src |-> "primary"]
                    ELSE [held |-> (foreign[r][d] # ZeroPos), t |-> foreign[r][d].t, src |-> "own"]]]]
-EmitInv == (Emit = "final" /\ started /\ txCount = MaxTx /\ faults = MaxFaults /\ hist # <<>>)
+\* (only at states in which every stream is idle or cut: every control script reaches one, and the
+\* output stays small)
+EmitInv == (Emit = "final" /\ started /\ txCount = MaxTx /\ faults = MaxFaults /\ hist # <<>>
+            /\ \A r \in R : Quiescent(r) \/ (~conn[r] /\ blocked[r]))
            => PrintT("SCRIPT " \o ToJson([h |-> hist, filter |-> Filter, pred |-> Pred]))
 ====
